@@ -342,3 +342,7 @@ func Minimise(path string, budget int) (string, error) {
 	}
 	return rf.Note, nil
 }
+
+func writeFile(dir, name, content string) error {
+	return os.WriteFile(filepath.Join(dir, name), []byte(content), 0o644)
+}
